@@ -718,6 +718,22 @@ func main() {
 		run.Finish()
 		return
 	}
+	// fixed corner cases: the input of the repaired defect (a near-unit square at scale 2^-7 and
+	// 2^-20: the pinned super triangle lay below it -> 0 triangles), the known-finding example, single
+	// triangles in both input orders, a point inside a triangle, a thin strip and a far offset
+	for _, d := range []desc{
+		{Pts: [][2]int64{{0, 0}, {1, 0}, {1, 1}, {0, 2}}, Shift: -7, Model: true, Gen: "fixed"},
+		{Pts: [][2]int64{{0, 0}, {1, 0}, {1, 1}, {0, 2}}, Shift: -20, Model: true, Gen: "fixed"},
+		{Pts: [][2]int64{{0, 0}, {100, 0}, {100, 1}, {0, 2}, {50, 3}}, Shift: -10, Model: true, Gen: "fixed"},
+		{Pts: [][2]int64{{88, 21}, {11, 80}, {43, 55}, {41, 53}, {31, 17}, {31, 18}}, Model: true, Gen: "fixed"},
+		{Pts: [][2]int64{{0, 0}, {4, 1}, {1, 5}}, Model: true, Gen: "fixed"},
+		{Pts: [][2]int64{{0, 0}, {1, 5}, {4, 1}}, Model: true, Gen: "fixed"},
+		{Pts: [][2]int64{{0, 0}, {9, 1}, {2, 8}, {4, 3}}, Model: true, Gen: "fixed"},
+		{Pts: [][2]int64{{4, 3}, {0, 0}, {9, 1}, {2, 8}}, Shift: 20, OffX: 1 << 10, OffY: -(1 << 10), Model: true, Gen: "fixed"},
+		{Pts: [][2]int64{{0, 0}, {127, 1}, {3, 2}, {60, 0}, {90, 2}, {30, 1}}, OffX: 1 << 30, OffY: 1 << 30, Model: true, Gen: "fixed"},
+	} {
+		runCase(run, d, "pts")
+	}
 	r := hx.NewRng(run.Seed)
 	maxBig := 200
 	if run.Tier == "thorough" {
